@@ -729,4 +729,291 @@ theorem handleData_inv5 {N : Nat} {c : Client} (I : Inv5 N c) (o k : Nat) (a : A
     · exact Or.inr (Or.inl h)
     · exact Or.inr (Or.inr h)
 
+theorem bad_inv5 {N : Nat} {c : Client} (I : Inv5 N c) :
+    Inv5 N c.bad.1 ∧ ∀ o' : Nat, Placed c o' → Placed c.bad.1 o' :=
+  ⟨⟨I.len, I.k, I.out, I.inrange⟩, fun _ h => h⟩
+
+theorem lt_of_metaPending (c : Client) (o : Nat) (h : (c.getCons o).metaPending = true) : o < c.cons.length := by
+  apply Classical.byContradiction
+  intro hn
+  rw [getCons_default c o hn] at h
+  cases h
+
+theorem setCons_placed_other (c : Client) (o o' : Nat) (x : Cons) (hne : o' ≠ o) (h : Placed c o') :
+    Placed (c.setCons o x) o' := by
+  unfold Placed at h ⊢
+  rw [getCons_setCons]
+  simp only [hne, false_and, if_false]
+  exact h
+
+theorem keys_map_retry (x : Cons) (k left : Nat) :
+    keys { x with pending := x.pending.map fun e => if e.1 = k then (k, left - 1) else e } = keys x := by
+  unfold keys
+  simp only [List.map_map]
+  apply List.map_congr_left
+  intro e _
+  simp only [Function.comp]
+  split
+  · rename_i h; exact h.symm
+  · rfl
+
+/-- every event keeps the bookkeeping, and a consume that is placed stays placed.
+    `hserve`: the producer's store answers an exact Get with a packet of that name. -/
+theorem step_inv5 {N : Nat} {c : Client} (I : Inv5 N c) (serve : Name → Bool → Option Pkt)
+    (hserve : ∀ (nm : Name) (p : Pkt), serve nm false = some p → p.name = nm) (e : Ev) :
+    Inv5 N (c.step serve e).1 ∧ ∀ o' : Nat, Placed c o' → Placed (c.step serve e).1 o' := by
+  cases e with
+  | unsolicited => exact ⟨I, fun _ h => h⟩
+  | data o k =>
+    cases k with
+    | none =>
+      simp only [Client.step]
+      by_cases hmp : (c.getCons o).metaPending = true
+      · simp only [hmp, Bool.not_true, Bool.false_eq_true, if_false]
+        have ho := lt_of_metaPending c o hmp
+        cases c.served serve o none with
+        | none => exact bad_inv5 I
+        | some p =>
+          simp only
+          obtain ⟨c1, hc1⟩ : ∃ c1 : Client, c1 = c.setCons o { (c.getCons o) with metaPending := false } := ⟨_, rfl⟩
+          rw [← hc1]
+          have I1 : Inv5 N c1 := by rw [hc1]; exact I.setCons o _ ((I.k o).congr rfl rfl) rfl
+          have ho1 : o < c1.cons.length := by rw [I1.len, ← I.len]; exact ho
+          have pl1 : ∀ o' : Nat, o' ≠ o → Placed c o' → Placed c1 o' := by
+            intro o' hne h; rw [hc1]; exact setCons_placed_other c o o' _ hne h
+          cases p.md with
+          | none =>
+            refine ⟨I1.fail o, fun o' h => fail_placed c1 o o' ho1 ?_⟩
+            by_cases he : o' = o
+            · exact Or.inl he
+            · exact Or.inr (pl1 o' he h)
+          | some nm =>
+            simp only
+            obtain ⟨c2, hc2⟩ : ∃ c2 : Client, c2 = c1.setCons o { (c1.getCons o) with fetchName := nm.1 } := ⟨_, rfl⟩
+            rw [← hc2]
+            have I2 : Inv5 N c2 := by rw [hc2]; exact I1.setCons o _ ((I1.k o).congr rfl rfl) rfl
+            have ho2 : o < c2.cons.length := by rw [I2.len, ← I.len]; exact ho
+            obtain ⟨i1, i2⟩ := consumeObject_inv5 I2 o ho2 true
+            refine ⟨i1, fun o' h => i2 o' ?_⟩
+            by_cases he : o' = o
+            · exact Or.inl he
+            · right; rw [hc2]; exact setCons_placed_other c1 o o' _ he (pl1 o' he h)
+      · have : (c.getCons o).metaPending = false := Bool.eq_false_iff.mpr hmp
+        simp only [this, Bool.not_false, if_true]; exact bad_inv5 I
+    | some k =>
+      simp only [Client.step]
+      by_cases hany : ((c.getCons o).pending.any fun e => decide (e.1 = k)) = true
+      · simp only [hany, Bool.not_true, Bool.false_eq_true, if_false]
+        have hk : k ∈ keys (c.getCons o) := by
+          obtain ⟨e, he, hek⟩ := List.any_eq_true.mp hany
+          have : e.1 = k := by simpa using hek
+          exact List.mem_map.mpr ⟨e, he, this⟩
+        cases hsv : c.served serve o (some k) with
+        | none => exact bad_inv5 I
+        | some p =>
+          simp only
+          apply handleData_inv5 I o k _ hk
+          intro p' hp'
+          cases hp'
+          have := hserve _ p hsv
+          rw [this]; simp
+      · have : ((c.getCons o).pending.any fun e => decide (e.1 = k)) = false := Bool.eq_false_iff.mpr hany
+        simp only [this, Bool.not_false, if_true]; exact bad_inv5 I
+  | timeout o k =>
+    cases k with
+    | none =>
+      simp only [Client.step]
+      by_cases hmp : (c.getCons o).metaPending = true
+      · simp only [hmp, Bool.not_true, Bool.false_eq_true, if_false]
+        have ho := lt_of_metaPending c o hmp
+        split
+        · refine ⟨I.setCons o _ ((I.k o).congr rfl rfl) rfl, ?_⟩
+          intro o' h
+          by_cases he : o' = o
+          · subst he
+            unfold Placed
+            rw [getCons_setCons]
+            simp [ho, hmp]
+          · exact setCons_placed_other c o o' _ he h
+        · obtain ⟨c1, hc1⟩ : ∃ c1 : Client, c1 = c.setCons o { (c.getCons o) with metaPending := false } := ⟨_, rfl⟩
+          rw [← hc1]
+          have I1 : Inv5 N c1 := by rw [hc1]; exact I.setCons o _ ((I.k o).congr rfl rfl) rfl
+          have ho1 : o < c1.cons.length := by rw [I1.len, ← I.len]; exact ho
+          refine ⟨I1.fail o, fun o' h => fail_placed c1 o o' ho1 ?_⟩
+          by_cases he : o' = o
+          · exact Or.inl he
+          · right; rw [hc1]; exact setCons_placed_other c o o' _ he h
+      · have : (c.getCons o).metaPending = false := Bool.eq_false_iff.mpr hmp
+        simp only [this, Bool.not_false, if_true]; exact bad_inv5 I
+    | some k =>
+      simp only [Client.step]
+      cases hf : (c.getCons o).pending.find? (fun e => decide (e.1 = k)) with
+      | none => exact bad_inv5 I
+      | some e =>
+        simp only
+        have hk : k ∈ keys (c.getCons o) := by
+          have h1 := List.mem_of_find?_eq_some hf
+          have h2 := List.find?_some hf
+          exact List.mem_map.mpr ⟨e, h1, by simpa using h2⟩
+        split
+        · refine ⟨I.setCons o _ ?_ (by simp), ?_⟩
+          · have hkeys := keys_map_retry (c.getCons o) k e.2
+            refine ⟨?_, ?_, (I.k o).small, ?_⟩
+            · rw [hkeys]; exact (I.k o).nodup
+            · rw [hkeys]; exact (I.k o).lt
+            · intro hc; rw [hkeys]; exact (I.k o).live hc
+          · intro o' h
+            unfold Placed at h ⊢
+            rw [getCons_setCons]
+            split
+            · rename_i hh; obtain ⟨e1, _⟩ := hh; subst e1; exact h
+            · exact h
+        · exact handleData_inv5 I o k .timeout hk (fun p hp => by cases hp)
+
+/-! ### start, run, and quiescence -/
+
+theorem start_fold5 {N : Nat} (os : List Nat) : ∀ (acc : Client × Out), Inv5 N acc.1 → (∀ o ∈ os, o < N) →
+    Inv5 N (os.foldl (fun (acc : Client × Out) o =>
+      ((acc.1.consumeObject o false).1, acc.2.append (acc.1.consumeObject o false).2)) acc).1 ∧
+    ∀ o' : Nat, (Placed acc.1 o' ∨ o' ∈ os) →
+      Placed (os.foldl (fun (acc : Client × Out) o =>
+        ((acc.1.consumeObject o false).1, acc.2.append (acc.1.consumeObject o false).2)) acc).1 o' := by
+  induction os with
+  | nil =>
+    intro acc I _
+    refine ⟨I, ?_⟩
+    intro o' h
+    rcases h with h | h
+    · exact h
+    · cases h
+  | cons o rest ih =>
+    intro acc I hlt
+    simp only [List.foldl_cons]
+    have ho : o < acc.1.cons.length := by rw [I.len]; exact hlt o List.mem_cons_self
+    obtain ⟨i1, i2⟩ := consumeObject_inv5 I o ho false
+    obtain ⟨j1, j2⟩ := ih ((acc.1.consumeObject o false).1, acc.2.append (acc.1.consumeObject o false).2) i1
+      (fun o' h => hlt o' (List.mem_cons_of_mem _ h))
+    refine ⟨j1, ?_⟩
+    intro o' h
+    apply j2
+    rcases h with h | h
+    · exact Or.inl (i2 o' (Or.inr h))
+    · rcases List.mem_cons.mp h with h | h
+      · exact Or.inl (i2 o' (Or.inl h))
+      · exact Or.inr h
+
+theorem sum_map_zero {α : Type} (l : List α) : (l.map fun _ => 0).sum = 0 := by
+  induction l with
+  | nil => rfl
+  | cons a t ih => simp [ih]
+
+theorem start_inv5 (names : List Name) :
+    Inv5 names.length (Client.start names).1 ∧ ∀ o : Nat, o < names.length → Placed (Client.start names).1 o := by
+  unfold Client.start
+  have I0 : Inv5 names.length ({ cons := names.map fun n => { name := n, fetchName := n } } : Client) := by
+    refine ⟨by simp, ?_, ?_, ?_⟩
+    · intro o
+      unfold Client.getCons
+      simp only [List.getD_eq_getElem?_getD, List.getElem?_map]
+      cases names[o]? with
+      | none => exact KCons.default
+      | some n => exact KCons.default.congr rfl rfl
+    · show (0 : Nat) = totalPending _
+      unfold totalPending
+      simp only [List.map_map]
+      exact (sum_map_zero names).symm
+    · intro o ho; cases ho
+  obtain ⟨i1, i2⟩ := start_fold5 (List.range names.length)
+    (({ cons := names.map fun n => { name := n, fetchName := n } } : Client), ({} : Out)) I0
+    (fun o ho => List.mem_range.mp ho)
+  exact ⟨i1, fun o ho => i2 o (Or.inr (List.mem_range.mpr ho))⟩
+
+theorem run_inv5 (serve : Name → Bool → Option Pkt)
+    (hserve : ∀ (nm : Name) (p : Pkt), serve nm false = some p → p.name = nm)
+    (delivers : Nat → Key → Nat → Bool) (names : List Name) (evs : List Ev) :
+    Inv5 names.length (Client.run serve delivers names evs).1 ∧
+    ∀ o : Nat, o < names.length → Placed (Client.run serve delivers names evs).1 o := by
+  unfold Client.run
+  simp only
+  have key : ∀ (evs : List Ev) (acc : Client × List Out × List ((Nat × Key) × Nat)),
+      (Inv5 names.length acc.1 ∧ ∀ o : Nat, o < names.length → Placed acc.1 o) →
+      (Inv5 names.length (evs.foldl (fun (acc : Client × List Out × List ((Nat × Key) × Nat)) e =>
+        let c := acc.1
+        let cnt := acc.2.2
+        let consistent : Bool :=
+          match e with
+          | .data o k => delivers o k (countOf cnt (o, k)) && (c.served serve o k).isSome
+          | .timeout o k => !(delivers o k (countOf cnt (o, k)) && (c.served serve o k).isSome)
+          | .unsolicited => true
+        let r := c.step serve e
+        let c' := if consistent then r.1 else { r.1 with impossible := true }
+        (c', acc.2.1 ++ [r.2], r.2.sent.foldl bump cnt)) acc).1 ∧
+       ∀ o : Nat, o < names.length → Placed (evs.foldl (fun (acc : Client × List Out × List ((Nat × Key) × Nat)) e =>
+        let c := acc.1
+        let cnt := acc.2.2
+        let consistent : Bool :=
+          match e with
+          | .data o k => delivers o k (countOf cnt (o, k)) && (c.served serve o k).isSome
+          | .timeout o k => !(delivers o k (countOf cnt (o, k)) && (c.served serve o k).isSome)
+          | .unsolicited => true
+        let r := c.step serve e
+        let c' := if consistent then r.1 else { r.1 with impossible := true }
+        (c', acc.2.1 ++ [r.2], r.2.sent.foldl bump cnt)) acc).1 o) := by
+    intro evs
+    induction evs with
+    | nil => intro acc h; exact h
+    | cons e rest ih =>
+      intro acc h
+      simp only [List.foldl_cons]
+      apply ih
+      obtain ⟨s1, s2⟩ := step_inv5 h.1 serve hserve e
+      have mark : ∀ (b : Bool) (c : Client), (Inv5 names.length c ∧ ∀ o : Nat, o < names.length → Placed c o) →
+          (Inv5 names.length (if b = true then c else { c with impossible := true }) ∧
+           ∀ o : Nat, o < names.length → Placed (if b = true then c else { c with impossible := true }) o) := by
+        intro b c hc
+        cases b
+        · exact ⟨⟨hc.1.len, hc.1.k, hc.1.out, hc.1.inrange⟩, hc.2⟩
+        · exact hc
+      exact mark _ _ ⟨s1, fun o ho => s2 o (h.2 o ho)⟩
+  exact key evs _ (start_inv5 names)
+
+/-- **no starvation**: in every run of the multi-stream client — whatever the order of results, which
+    of them are failures, and how the streams interleave — once no Interest is pending any more
+    (no segment Interest, no metadata Interest), every Consume has completed. -/
+theorem quiescent_all_complete (serve : Name → Bool → Option Pkt)
+    (hserve : ∀ (nm : Name) (p : Pkt), serve nm false = some p → p.name = nm)
+    (delivers : Nat → Key → Nat → Bool) (names : List Name) (evs : List Ev)
+    (hq : ∀ o : Nat, ((Client.run serve delivers names evs).1.getCons o).pending = [] ∧
+      ((Client.run serve delivers names evs).1.getCons o).metaPending = false) :
+    ∀ o : Nat, o < names.length → ((Client.run serve delivers names evs).1.getCons o).f.complete = true := by
+  obtain ⟨I5, pl⟩ := run_inv5 serve hserve delivers names evs
+  have I4 := Inv4.run serve delivers names evs
+  obtain ⟨c, hc⟩ : ∃ c : Client, c = (Client.run serve delivers names evs).1 := ⟨_, rfl⟩
+  rw [← hc] at hq I5 pl I4 ⊢
+  -- nothing is outstanding
+  have htp : totalPending c = 0 := by
+    unfold totalPending
+    have : ∀ x ∈ c.cons, x.pending.length = 0 := by
+      intro x hx
+      obtain ⟨i, hi, rfl⟩ := List.getElem_of_mem hx
+      have := (hq i).1
+      rw [getCons_of_lt c i hi] at this
+      rw [this]; rfl
+    have h0 : c.cons.map (fun x => x.pending.length) = c.cons.map (fun _ => 0) :=
+      List.map_congr_left this
+    rw [h0]; exact sum_map_zero _
+  have hout : c.outstanding = 0 := by rw [I5.out, htp]
+  -- so the fetcher is empty
+  have hstreams : c.streams = [] := by
+    rcases I4.served with h | h | ⟨x, hx, hw⟩
+    · rw [hout] at h; simp [window] at h
+    · exact h
+    · rw [fOf_eq] at hw
+      exact absurd (hq x).1 ((I5.k x).waiting_pending hw)
+  intro o ho
+  rcases pl o ho with h | h | h
+  · rw [hstreams] at h; cases h
+  · rw [(hq o).2] at h; cases h
+  · exact h
+
 end Ndn.C15
